@@ -1101,11 +1101,17 @@ func (sp *safetyPass) bounds(st *State, in ssa.Instruction, base, index, lo, hi 
 		if mk, ok := ex.Resolve(st, base).(*ssa.MakeSlice); ok {
 			lenIs[ex.Canon(st, mk.Len).S] = true
 		}
+		if rangeElemOfSameValue(v, base, in) {
+			return true, "index of a range loop over this very value (the loop's own i < len test dominates the access)"
+		}
 		if isRangeIndex(ex.Resolve(st, v)) || isRangeIndex(v) {
 			// range-loop index: 0 <= i, and i < len on the body edge
 			for _, f := range st.live {
 				if f.Kind == "lt" && f.X == vs && f.Val && lenIs[f.Y] {
 					return true, "range-loop index (i < " + f.Y + ")"
+				}
+				if k, err := strconv.ParseInt(f.Y, 10, 64); err == nil && f.Kind == "lt" && f.X == vs && f.Val && k <= lb {
+					return true, "range-loop index (i < " + f.Y + " ≤ length)"
 				}
 			}
 		}
@@ -1123,6 +1129,9 @@ func (sp *safetyPass) bounds(st *State, in ssa.Instruction, base, index, lo, hi 
 			}
 			if f.X == vs && lenIs[f.Y] && f.Val {
 				upper = true
+			}
+			if k, err := strconv.ParseInt(f.Y, 10, 64); err == nil && f.X == vs && f.Val && k <= lb {
+				upper = true // index < k with k ≤ the proven length
 			}
 			if f.X == "-1" && f.Y == vs && f.Val {
 				nonneg = true
@@ -1347,4 +1356,33 @@ func singleSiteHelper(c *Ctx, fn *ssa.Function) bool {
 		return false // closures
 	}
 	return len(fn.Blocks) <= 80
+}
+
+// rangeElemOfSameValue: idx is the index of a `range` loop whose header tests
+// idx < len(B) for the very SSA value B that is indexed here (SSA values are
+// immutable: no store or call can change B's length), and the access sits in
+// the loop body.
+func rangeElemOfSameValue(idx, base ssa.Value, at ssa.Instruction) bool {
+	b, ok := idx.(*ssa.BinOp)
+	if !ok || !isRangeIndex(idx) {
+		return false
+	}
+	ph := b.X.(*ssa.Phi)
+	hb := ph.Block()
+	iff, ok := hb.Instrs[len(hb.Instrs)-1].(*ssa.If)
+	if !ok {
+		return false
+	}
+	cmp, ok := iff.Cond.(*ssa.BinOp)
+	if !ok || cmp.Op != token.LSS || cmp.X != idx {
+		return false
+	}
+	call, ok := cmp.Y.(*ssa.Call)
+	if !ok {
+		return false
+	}
+	if bi, ok := call.Call.Value.(*ssa.Builtin); !ok || bi.Name() != "len" || call.Call.Args[0] != base {
+		return false
+	}
+	return hb.Succs[0].Dominates(at.Block())
 }
